@@ -24,8 +24,6 @@ for n in names:
     patch = os.path.join(root, n, "patch.diff")
     r = subprocess.run(["git", "-C", "/repo", "apply", patch], capture_output=True, text=True)
     if r.returncode != 0:
-        r = subprocess.run(["git", "-C", "/repo", "apply", "-3", patch], capture_output=True, text=True)
-    if r.returncode != 0:
         rows.append((n, prop, "PATCH DOES NOT APPLY", "", 0))
         subprocess.run(["git", "-C", "/repo", "checkout", "--", "."])
         continue
